@@ -339,6 +339,10 @@ class Engine:
         s.natives_used = set()
         s.alloc_calls = []    # C13: calls into alloc::/std:: met on a path
         s.fork_limit = None
+        import os as _os
+        s.dump_dir = _os.environ.get('VERIF_SMT_DUMP')
+        s.dump_every = int(_os.environ.get('VERIF_SMT_EVERY', '997'))
+        s.dump_count = 0
         s.stack = []
         s.known = {}
 
@@ -394,6 +398,8 @@ class Engine:
             s.solver.add(cond)
             r = s.solver.check()
             s.solver_time += time.perf_counter() - t0
+            if s.dump_dir:
+                s.dump_query(r)
             if r == z3.sat:
                 if s.model is None:
                     s.model = s.solver.model()
@@ -472,6 +478,20 @@ class Engine:
             raise Unsupported(f'symbolic value outside concretisation range {lo}..{hi}')
         return r
 
+    def dump_query(s, r):
+        """second-solver cross-check (thorough tier): every k-th query is written out as SMT-LIB2 with z3's verdict"""
+        s.dump_count += 1
+        if s.dump_count % s.dump_every:
+            return
+        try:
+            import os
+            txt = '(set-logic ALL)\n' + s.solver.to_smt2()
+            name = os.path.join(s.dump_dir, f'q{os.getpid()}_{s.dump_count}_{"sat" if r == z3.sat else "unsat"}.smt2')
+            with open(name, 'w') as f:
+                f.write(txt)
+        except Exception:
+            pass
+
     def is_feasible(s, cond):
         """one solver query: is pc ∧ cond satisfiable?  returns (bool, model or None)"""
         s.queries += 1
@@ -479,6 +499,8 @@ class Engine:
         s.solver.push()
         s.solver.add(cond)
         r = s.solver.check()
+        if s.dump_dir:
+            s.dump_query(r)
         m = s.solver.model() if r == z3.sat else None
         s.solver.pop()
         s.solver_time += time.perf_counter() - t0
